@@ -265,3 +265,16 @@ func (p *Prog) liftPairs(a, b ssa.Instruction) []liftPair {
 	}
 	return out
 }
+
+// deepFuncs returns fn and the helpers it (transitively) calls.
+func deepFuncs(fn *ssa.Function) []*ssa.Function {
+	out := []*ssa.Function{fn}
+	seen := map[*ssa.Function]bool{fn: true}
+	deepInstrs(fn, func(in ssa.Instruction) {
+		if g := in.Parent(); !seen[g] {
+			seen[g] = true
+			out = append(out, g)
+		}
+	})
+	return out
+}
